@@ -336,8 +336,8 @@ std::string
 gen_c15()
 {
 	std::ostringstream t;
-	int mode = *pbt::welem<int>({{4, 0}, {1, 1}, {1, 2}});
-	t << "cfg " << *pbt::range<int>(1, 1000000) << " " << mode << " " << *gen::element(10, 30) << " " << *pbt::range<int>(1, 3) << " 400 0\n";
+	int mode = *pbt::welem<int>({{4, 0}, {1, 1}, {1, 2}, {1, 3}});
+	t << "cfg " << *pbt::range<int>(1, 1000000) << " " << mode << " " << (mode == 3 ? *gen::element(5, 20) : *gen::element(10, 30)) << " " << *pbt::range<int>(1, 3) << " " << (mode == 3 ? *gen::element(60, 150, 400) : 400) << " 0\n";
 	t << "world " << *pbt::range<int>(0, kNProtos - 1) << "\n";
 	if (*gen::weightedElement<int>({{1, 0}, {3, 1}}))
 		t << "stime 0 " << *gen::element(30, 100, 1000) << "\nstime 1 " << *gen::element(30, 100, 1000) << "\n";
